@@ -561,7 +561,9 @@ class Interp:
                 if r is not NotImplemented:
                     return r
         cenv = caller.env if caller is not None else {}
-        b = self.prog.bodies.get(path)
+        b = self.prog.lookup(path)
+        if b is None and callee and (callee.get("res") or {}).get("path"):
+            b = self.prog.lookup(callee["res"]["path"])
         if b is not None and not (callee and callee.get("trait") and not callee.get("res") and b.impl_trait is None and callee["path"] == path and self._is_decl_only(b)):
             env = self.bind_env(b, callee, cenv)
             for k, v in self.infer_env(b, args).items():
